@@ -6,6 +6,8 @@ Tie, continued (see Props/Tie/DifflibGen.lean): statements for ALL inputs relati
   6. chainB / NewMatcher: the `b2j` map agrees with `Difflib.b2j` for every element (`NewMatcher_b2j_agrees`)
   7. findLongestMatch: the inner loop (`inner_sim`) and the outer loop (`outer_sim`) agree with the hand port's `inner` / `outer`;
      the two extension loops agree with `extBack` / `extFwd` within their iteration bounds (`back_sim`, `fwd_sim`); the assembly `findLongestMatch_agrees`
+  8. getMatchingBlocks: the recursive closure (`matchBlocks_sim`, any fuel > ahi - alo), the collapse loop, `getMatchingBlocks_agrees`
+  9. UNCONDITIONAL: `groupedOpCodes_agrees` — the generated NewMatcher(a, b).GetGroupedOpCodes(n) = the hand port, for all inputs
 -/
 import GoSnaps.Props.Tie.DifflibGen
 import GoSnaps.Lemmas.Difflib
@@ -912,5 +914,117 @@ theorem matchBlocks_sim (m : Matcher) (a b : List (List UInt8)) (hm : MatcherOf 
           refine (e2 acc _ rfl).trans ?_; simp
     · have hkd : ¬ ((mk : Int) > 0) := by omega
       simp [hkd, hk]
+
+abbrev CSt := List DifflibGen.Match × Int × Int × Int
+
+/-- one iteration of the adjacency-collapse loop of `getMatchingBlocks` on (nonAdjacent, i1, j1, k1) -/
+def cStep (s : CSt) (x : DifflibGen.Match) : CSt :=
+  if s.2.1 + s.2.2.2 = x.a ∧ s.2.2.1 + s.2.2.2 = x.b then (s.1, s.2.1, s.2.2.1, s.2.2.2 + x.size)
+  else if s.2.2.2 > 0 then (s.1 ++ [⟨s.2.1, s.2.2.1, s.2.2.2⟩], x.a, x.b, x.size)
+  else (s.1, x.a, x.b, x.size)
+
+/-- `if k1 > 0 { nonAdjacent = append(nonAdjacent, match{i1, j1, k1}) }` after the loop -/
+def cFinal (s : CSt) : List DifflibGen.Match :=
+  if s.2.2.2 > 0 then s.1 ++ [⟨s.2.1, s.2.2.1, s.2.2.2⟩] else s.1
+
+theorem collapse_sim (ms : List Difflib.Match) (i1 j1 k1 : Nat) (out : List Difflib.Match) :
+    cFinal ((ms.map mI).foldl cStep (out.map mI, (i1 : Int), (j1 : Int), (k1 : Int))) =
+      (Difflib.collapse ms i1 j1 k1 out).map mI := by
+  induction ms generalizing i1 j1 k1 out with
+  | nil =>
+    simp only [List.map_nil, List.foldl_nil, cFinal, Difflib.collapse]
+    by_cases h : 0 < k1
+    · have h' : (k1 : Int) > 0 := by omega
+      simp [h, h', mI]
+    · have h' : ¬ ((k1 : Int) > 0) := by omega
+      simp [h, h']
+  | cons x xs ih =>
+    rw [List.map_cons, List.foldl_cons, Difflib.collapse]
+    by_cases h : i1 + k1 = x.i ∧ j1 + k1 = x.j
+    · have h' : (i1 : Int) + k1 = (mI x).a ∧ (j1 : Int) + k1 = (mI x).b := by simp only [mI]; omega
+      have e : cStep (out.map mI, (i1 : Int), (j1 : Int), (k1 : Int)) (mI x) =
+          (out.map mI, (i1 : Int), (j1 : Int), ((k1 + x.k : Nat) : Int)) := by
+        simp only [cStep, h', and_self, if_true]; simp [mI]
+      rw [e, if_pos h, ih]
+    · have h' : ¬ ((i1 : Int) + k1 = (mI x).a ∧ (j1 : Int) + k1 = (mI x).b) := by simp only [mI]; omega
+      rw [if_neg h]
+      by_cases hk : 0 < k1
+      · have hk' : (k1 : Int) > 0 := by omega
+        have e : cStep (out.map mI, (i1 : Int), (j1 : Int), (k1 : Int)) (mI x) =
+            ((out ++ [(⟨i1, j1, k1⟩ : Difflib.Match)]).map mI, (x.i : Int), (x.j : Int), (x.k : Int)) := by
+          simp only [cStep, h', if_false, hk', if_true]; simp [mI]
+        rw [e, if_pos hk, ih]
+      · have hk' : ¬ ((k1 : Int) > 0) := by omega
+        have e : cStep (out.map mI, (i1 : Int), (j1 : Int), (k1 : Int)) (mI x) =
+            (out.map mI, (x.i : Int), (x.j : Int), (x.k : Int)) := by
+          simp only [cStep, h', if_false, hk']; simp [mI]
+        rw [e, if_neg hk, ih]
+
+/-- **getMatchingBlocks agrees with the hand port** for every matcher of `a`, `b` with an empty cache and
+    every fuel greater than `len a` (so the fuel `len a + 1` of the glue `groupedOpCodes` suffices) -/
+theorem getMatchingBlocks_agrees (fuel : Nat) (m : Matcher) (a b : List (List UInt8)) (hm : MatcherOf m a b)
+    (hn : m.matchingBlocks = none) (hf : a.length < fuel) :
+    sequenceMatcher_getMatchingBlocks fuel m =
+      some ({ m with matchingBlocks := some ((Difflib.getMatchingBlocks a b).map mI) },
+        (Difflib.getMatchingBlocks a b).map mI) := by
+  have hmb := matchBlocks_sim m a b hm fuel 0 a.length 0 b.length [] (Nat.zero_le _) (Nat.le_refl _) (Nat.zero_le _)
+    (Nat.le_refl _) (by omega)
+  have hfuel : Difflib.mbN a b fuel 0 a.length 0 b.length = Difflib.mbN a b a.length 0 a.length 0 b.length :=
+    Difflib.mbN_fuel fuel a.length 0 a.length 0 b.length (Nat.zero_le _) (Nat.le_refl _) (Nat.zero_le _) (Nat.le_refl _)
+      (by omega) (by omega)
+  simp only [List.map_nil, List.nil_append, Int.natCast_zero, hfuel] at hmb
+  have hla : GoSem.len m.a = (a.length : Int) := by rw [hm.ha]; rfl
+  have hlb : GoSem.len m.b = (b.length : Int) := by rw [hm.hb]; rfl
+  unfold sequenceMatcher_getMatchingBlocks
+  simp only [hn, hla, hlb, hmb, Option.isSome_none, Option.bind_eq_bind, Option.bind_some, Option.pure_def,
+    Bool.false_eq_true, if_false]
+  rw [forIn_opt_foldl _ _ (fun (s : CSt) x => cStep s x)]
+  · simp only [Option.bind_some]
+    have hc := collapse_sim (Difflib.mbN a b a.length 0 a.length 0 b.length) 0 0 0 []
+    simp only [List.map_nil, Int.natCast_zero] at hc
+    have hX : (Difflib.getMatchingBlocks a b).map mI =
+        cFinal ((List.map mI (Difflib.mbN a b a.length 0 a.length 0 b.length)).foldl cStep ([], 0, 0, 0)) ++
+          [{ a := (a.length : Int), b := (b.length : Int), size := 0 }] := by
+      rw [hc, Difflib.getMatchingBlocks_eq, Difflib.collapse_eq]
+      simp [mI]
+    rw [hX]
+    generalize (List.map mI (Difflib.mbN a b a.length 0 a.length 0 b.length)).foldl cStep ([], 0, 0, 0) = st
+    unfold cFinal
+    by_cases hk : st.2.2.2 > 0
+    · simp [hk]
+    · simp [hk]
+  · intro x s
+    unfold cStep
+    by_cases c1 : s.2.1 + s.2.2.2 = x.a <;> by_cases c2 : s.2.2.1 + s.2.2.2 = x.b <;> by_cases c3 : s.2.2.2 > 0 <;>
+      simp [c1, c2, c3]
+
+/-! ## 9. the whole chain -/
+
+/-- **UNCONDITIONAL: the generated `difflib.NewMatcher(a, b).GetGroupedOpCodes(n)` (the glue `groupedOpCodes`, fuel
+    `len a + 1`) returns — without panic and without hitting a bound of the translation — exactly what the
+    hand port `Difflib.getGroupedOpCodes a b n` computes**, for all sequences and every n ≥ 0 -/
+theorem groupedOpCodes_agrees (a b : List (List UInt8)) (n : Nat) :
+    DifflibGen.groupedOpCodes a b (n : Int) = some ((Difflib.getGroupedOpCodes a b n).map (·.map opI)) := by
+  unfold DifflibGen.groupedOpCodes
+  have hm := NewMatcher_of a b
+  obtain ⟨_, _, _, _, hn, hop⟩ := NewMatcher_fields a b
+  have h1 := getMatchingBlocks_agrees (a.length + 1) (NewMatcher a b) a b hm hn (by omega)
+  have h2 := getOpCodes_agrees (a.length + 1) (NewMatcher a b) _ a b hop h1
+  cases h3 : sequenceMatcher_getOpCodes (a.length + 1) (NewMatcher a b) with
+  | none => rw [h3] at h2; simp at h2
+  | some r =>
+    obtain ⟨m', codes⟩ := r
+    rw [h3] at h2
+    simp only [Option.map_some, Option.some.injEq] at h2
+    subst h2
+    exact GetGroupedOpCodes_agrees (a.length + 1) (NewMatcher a b) m' a b n h3
+
+/-- a negative context size behaves as 3 (`if n < 0 { n = 3 }`) -/
+theorem groupedOpCodes_neg (a b : List (List UInt8)) (n : Int) (hn : n < 0) :
+    DifflibGen.groupedOpCodes a b n = some ((Difflib.getGroupedOpCodes a b 3).map (·.map opI)) := by
+  have := groupedOpCodes_agrees a b 3
+  unfold DifflibGen.groupedOpCodes at this ⊢
+  rw [GetGroupedOpCodes_neg _ _ n hn]
+  exact this
 
 end GoSnaps.Tie.DifflibGen
